@@ -488,6 +488,35 @@ def load_known():
         return json.load(f)
 
 
+def run_rules(mod, chk, fname="run"):
+    """Execute the top-level statements of mod.<fname>(chk) one by one, so that a rule that cannot analyse the tree
+    (AnalysisError: anchor vanished, floor not met, unsupported idiom) does not silence the other rules of the property.
+    Errors are collected in chk.analysis_errors; a later statement that only fails because an earlier one did not define
+    its inputs (NameError) is recorded as dependent."""
+    import ast as _ast
+    import inspect
+    fn = getattr(mod, fname)
+    src = inspect.getsource(mod)
+    tree = _ast.parse(src)
+    node = next(n for n in tree.body if isinstance(n, _ast.FunctionDef) and n.name == fname)
+    pname = node.args.args[0].arg
+    ns = dict(vars(mod))
+    ns[pname] = chk
+    if not hasattr(chk, "analysis_errors"):
+        chk.analysis_errors = []
+    for st in node.body:
+        code = compile(_ast.Module(body=[st], type_ignores=[]), mod.__file__, "exec")
+        try:
+            exec(code, ns)
+        except AnalysisError as e:
+            chk.analysis_errors.append(str(e))
+        except NameError as e:
+            if not chk.analysis_errors:
+                raise
+            chk.analysis_errors.append(f"dependent on a failed step: {e}")
+    return chk.analysis_errors
+
+
 def finish(chk, level="other", explanation="", level_text=""):
     """Decide the exit code, print lines, write evidence. Returns exit code."""
     prop = chk.prop
@@ -529,6 +558,11 @@ def finish(chk, level="other", explanation="", level_text=""):
             print(f"{v.loc}  {v.rule}  {v.construct}  {v.what}")
             print(f"VIOLATION property={prop} replay={rp}")
         rc = 1
+    errs = getattr(chk, "analysis_errors", [])
+    for e in errs:
+        print(f"ANALYSIS-ERROR property={prop}: {e}")
+    if errs and rc == 0:
+        rc = 2          # some rule could not analyse the tree and no other rule found a violation: cannot decide
     for x in chk.crossref:
         print(f"CROSS-REF: {x}")
     obligations = len(chk.obs)
@@ -571,7 +605,9 @@ def finish(chk, level="other", explanation="", level_text=""):
         "wall_s": round(time.time() - chk.t0, 3),
         "violations": len(new),
     }
-    if not os.environ.get("VERIF_NO_EVIDENCE"):   # set only by the seed/mutant harness (scratch copies)
+    if errs:
+        ev["coverage"]["analysis_errors"] = errs
+    if not os.environ.get("VERIF_NO_EVIDENCE") and rc != 2:   # set only by the seed/mutant harness (scratch copies)
         with open(os.path.join(ev_dir, f"{prop}.json"), "w") as f:
             json.dump(ev, f, indent=1, default=str)
     print(f"{prop}: {obligations} obligations over {len(per_rule)} rules, {discharged} hold, "
